@@ -123,6 +123,31 @@ pub fn make_linked_list<'a>(vbar: bool, mut terms: Vec<Unifiable>) -> Unifiable 
 
 } // make_linked_list()
 
+/// Makes a Suiron list which holds exactly the given terms: [t1, t2, t3]
+///
+/// Every term becomes one element of the list. Unlike
+/// [make_linked_list()](../s_linked_list/fn.make_linked_list.html),
+/// a last term which is itself a list (or an empty list) stays an
+/// element; it is not spliced in as the rest of the list. The lists
+/// computed by built-in predicates are made with this function.
+///
+/// # Arguments
+/// * vector of unifiable terms
+/// # Return
+/// [SLinkedList](../unifiable/enum.Unifiable.html#variant.SLinkedList)
+///
+pub fn make_list_of_elements(terms: Vec<Unifiable>) -> Unifiable {
+
+    let mut list = cons_node!(Nil, Nil, 0, false);  // Empty list.
+    let mut num = 1;
+    for term in terms.into_iter().rev() {
+        list = cons_node!(term, list, num, false);
+        num += 1;
+    }
+    return list;
+
+} // make_list_of_elements()
+
 /// Compares two characters. Checks for backslash escapes: \\
 ///
 /// If the character indexed in the vector of characters is the same as
@@ -477,7 +502,7 @@ pub fn filter(filter: &Unifiable,
             } // match
         } // while
 
-        let new_list = make_linked_list(false, filtered_terms);
+        let new_list = make_list_of_elements(filtered_terms);
         return Some(new_list);
     }
     return None;
